@@ -105,14 +105,11 @@ class Constraint(object):
 
         """
 
-        # If the attribute value is not None, then simply return it.
-        # Otherwise, compute it and return it.
-        if self._value is None:
-
-            try:
-                self._value = self.expression.eval()
-            except ValueError:
-                raise ValueError("The PEP must be solved to evaluate Constraints!")
+        # Compute the value anew from the underlying expression, so that it always reflects the latest solve.
+        try:
+            self._value = self.expression.eval()
+        except ValueError:
+            raise ValueError("The PEP must be solved to evaluate Constraints!")
 
         return self._value
 
